@@ -478,15 +478,15 @@ class Analysis:
             # the end depends on a variable that was joined: does one of the exact values it had on an incoming path overrun?
             # symbols of `end` that ARE the current value of a variable with witnesses (a join symbol, or the fresh symbol of v = c ? a : b)
             phis = []
-            for s_, c_ in end[1]:
+            diff = tadd(end, E, -1)                      # the witness value goes into both the end and the allocation term
+            for s_, c_ in diff[1]:
                 vid_ = s_[2] if s_[0] == "phi" else (s_[1] if s_[0] == "v" else None)
                 if vid_ is not None and st.wit.get(vid_) and st.env.get(vid_) == T(0, [(s_, 1)]):
                     phis.append(((s_, vid_), c_))
             if len(phis) == 1:
                 ((sym, wvid), coef) = phis[0]
                 for t_ in sorted(st.wit[wvid], key=repr):
-                    e2 = tadd(tadd(end, T(0, [(sym, coef)]), -1), tscale(t_, coef))
-                    d2 = tconst(tadd(e2, E, -1))
+                    d2 = tconst(tadd(tadd(diff, T(0, [(sym, coef)]), -1), tscale(t_, coef)))
                     if d2 is not None and d2 > 0 and ("R-EXTENT", self.fn["name"], self.rname(r)) not in self.exceptions:
                         self.stats.bump("extent_refuted", line)
                         self.rep("R-EXTENT", line, "overrun-on-path:%s" % self.rname(r),
